@@ -206,6 +206,76 @@ def array_arguments(ctx, cases, res):
                                         f"index times element size", dict(case, layout=lay))
 
 
+def ownership(ctx, cases, res):
+    """what a domain hands out belongs to the caller, and domains are independent objects: tables returned by a domain are modified
+    in place (block numbering `t += offset` is the usual reason), and the node-numbering table of ANOTHER domain of the same
+    dimension is permuted in place (the source invites users to override it); afterwards the domain under test — and a domain
+    constructed afterwards — must still report exactly the model's tables, and its shape functions must be one at their own node"""
+    pm = _pm()
+    done = 0
+    for c, m in zip(cases, res):
+        if "ok" not in m or done >= (24 if ctx.quick else 200):
+            continue
+        nelx, nely, nelz, nd = c["nelx"], c["nely"], c["nelz"], c["ndof"]
+        if nelx * nely * max(nelz, 1) > 200:
+            continue
+        done += 1
+        mo = m["ok"]
+        case = {"op": "ownership", "grid": [nelx, nely, nelz], "ndof": nd}
+
+        def tables(d):
+            return {"conn": np.asarray(d.conn).tolist(), "dofconn1": np.asarray(d.get_dofconnectivity(1)).tolist(),
+                    "dofconn": np.asarray(d.get_dofconnectivity(nd)).tolist(),
+                    "elements": np.asarray(d.elements).flatten().tolist(), "nodes": np.asarray(d.nodes).flatten().tolist(),
+                    "node_indices": np.asarray(d.get_node_indices()).tolist()}
+        want = {"conn": mo["conn"], "dofconn1": mo["conn"], "dofconn": mo["dofconn"], "elements": mo["elements"],
+                "nodes": mo["nodes"], "node_indices": mo["node_indices"]}
+
+        def scribble():
+            d = pm.DomainDefinition(nelx, nely, nelz)
+            for get in (lambda: d.get_dofconnectivity(1), lambda: d.get_dofconnectivity(nd), lambda: d.get_node_indices(),
+                        lambda: d.get_elemconnectivity(0, 0, 0), lambda: d.get_elemconnectivity(np.array([0]), np.array([0]), np.array([0])),
+                        lambda: d.get_elemnumber(np.array([0]), np.array([0]), np.array([0])),
+                        lambda: d.get_nodenumber(np.array([0, 1]), np.array([0, 1]), np.array([0, 0])),
+                        lambda: d.get_node_position(np.array([0, 1])),
+                        lambda: d.eval_shape_fun(np.zeros(3)), lambda: d.eval_shape_fun_der(np.zeros(3))):
+                t = get()
+                if isinstance(t, np.ndarray) and t.flags.writeable and t.size:
+                    t += 7 * (d.nnodes + 1)          # in place: the returned array is the caller's
+            return tables(d)
+        r = call_impl(scribble)
+        if r[0] == "err":
+            ctx.disagree("ownership", case, r[1], "ok", r[2])
+        elif not ctx.compare_exact("ownership.returned", case, r[1], want, key=("ownership.returned", nelx, nely, nelz, nd)):
+            bad = [k for k in want if r[1][k] != want[k]]
+            ctx.oracle_fail(f"grid {nelx}x{nely}x{nelz}: after the caller modified arrays RETURNED by the domain in place, the domain "
+                            f"reports different tables ({', '.join(bad)}): a returned array aliases the domain's own data", case)
+
+        def decoy():
+            other = pm.DomainDefinition(max(1, nely), max(1, nelx), 1 if nelz else 0)   # same dimension, another object
+            nn = other.node_numbering
+            nn[0], nn[-1] = nn[-1], nn[0]             # custom numbering of the OTHER domain, edited in place
+            nn[1][0] = -nn[1][0]
+            d = pm.DomainDefinition(nelx, nely, nelz)
+            dim = 3 if nelz else 2
+            own = []
+            for a in range(2 ** dim):                # shape function a at its own node (documented local order)
+                sgn = [(-1 if not (a >> ax) & 1 else 1) for ax in range(dim)]
+                pos = np.array([sgn[ax] * d.element_size[ax] / 2 for ax in range(dim)] + [0.0] * (3 - dim))
+                own.append(float(d.eval_shape_fun(pos)[a]))
+            return tables(d), own
+        r = call_impl(decoy)
+        if r[0] == "err":
+            ctx.disagree("ownership", case, r[1], "ok", r[2])
+        else:
+            tb, own = r[1]
+            ok = ctx.compare_exact("ownership.decoy", case, tb, want, key=("ownership.decoy", nelx, nely, nelz, nd))
+            if not ok or any(abs(v - 1.0) > 1e-12 for v in own):
+                ctx.oracle_fail(f"grid {nelx}x{nely}x{nelz}: a domain constructed after ANOTHER domain's node numbering was customised in "
+                                f"place does not have the documented connectivity / shape functions (own-node values {own})", case)
+        ctx.branch("ownership")
+
+
 def correspondence(ctx):
     # ---- grids (mode E) ------------------------------------------------------------------
     cases, impls = [], []
@@ -233,6 +303,7 @@ def correspondence(ctx):
     if cases:
         ctx.sample({"request": cases[len(cases) // 2], "conn_first_row": impls[len(cases) // 2]["conn"][0]})
     array_arguments(ctx, cases, res)
+    ownership(ctx, cases, res)
 
     # ---- shape functions -------------------------------------------------------------------
     n = 60 if ctx.quick else 600
